@@ -230,7 +230,9 @@ def check(drv, pid, tier, seed):
                 return True
         return False
 
-    for (g, step, shard, local) in mism:
+    # only the first three cases are written out: those that also fail one of the property's own predicates
+    # (concrete failing inputs) come first
+    for (g, step, shard, local) in sorted(mism, key=lambda m: (m[0] not in pred, m[0])):
         trace = meta['traces'][g]
         if is_known('\n'.join(trace)):
             continue
